@@ -20,9 +20,15 @@ void verif_declassify(const void *p, unsigned long len);
 unsigned char nondet_uchar(void); int nondet_int(void); uint64_t nondet_u64(void); uint32_t nondet_u32(void); size_t nondet_size_t(void);
 secp256k1_fe nondet_fe(void); secp256k1_scalar nondet_scalar(void); secp256k1_ge nondet_ge(void); secp256k1_gej nondet_gej(void); secp256k1_ge_storage nondet_ges(void);
 
+#ifndef SHA_CAP
+#define SHA_CAP (1 << 20)
+#endif
 typedef unsigned __CPROVER_bitvector[8192] trace_t;
 typedef unsigned __CPROVER_bitvector[4096] dlog_t;
-static int sha_calls; static int vt_k[2];
+#ifndef CT_UF
+static int sha_calls;
+#endif
+static int vt_k[2];
 static trace_t tr[2]; static unsigned tn[2]; static dlog_t dl[2], vt[2]; static unsigned dn[2], vn[2]; static int run, ct_on;
 void verif_branch(const char *id) { if (ct_on) { tr[run] = (tr[run] << 1) | (id[0] == 't'); tn[run]++; } }
 void verif_declassify(const void *p, unsigned long len) { const unsigned char *q = p; unsigned long i; int on = ct_on; ct_on = 0; for (i = 0; i < len; i++) { dl[run] = (dl[run] << 8) | q[i]; dn[run]++; } ct_on = on; }
@@ -38,8 +44,22 @@ static void ct_verdict(void) {
     __CPROVER_assert(tr[0] == tr[1], "same sequence of branch decisions for all secrets");
 }
 
+#ifdef CT_UF
+/* API-level queries: kernels are uninterpreted FUNCTIONS of their operand values (w_uf.h), so computations on public data give the same
+ * results in both runs while anything derived from a secret may differ; stub-internal branches are not events; variable-time
+ * routines report their operands */
+static void vt_note(const void *p, unsigned long len);
+#define W_UF_ENTER int on_ = ct_on; ct_on = 0;
+#define W_UF_LEAVE ct_on = on_;
+#define W_UF_VT(p, len) vt_note((p), (len))
+#include "vcommon.h"
+#include "w_uf.h"
+#define sha_calls uf_sha_calls
+#define CT_REAL_KERNELS
+#define CT_NO_SUMMARIES
+#endif
 /* ---- summaries of multiplicative kernels: constant-time by their own leaf queries (no branch at all), results arbitrary per run ---- */
-#ifndef CT_REAL_KERNELS
+#if !defined(CT_REAL_KERNELS)
 static secp256k1_fe fe_m1(void) { int on_ = ct_on; secp256k1_fe r = nondet_fe(); ct_on = 0;
 #ifdef SECP256K1_WIDEMUL_INT128
     __CPROVER_assume((r.n[0] >> 52) == 0 && (r.n[1] >> 52) == 0 && (r.n[2] >> 52) == 0 && (r.n[3] >> 52) == 0 && (r.n[4] >> 48) == 0);
@@ -55,9 +75,6 @@ static secp256k1_scalar sc_any(void) { secp256k1_scalar r = nondet_scalar(); __C
 void STUB_secp256k1_scalar_mul(secp256k1_scalar *r, const secp256k1_scalar *a, const secp256k1_scalar *b) { (void)a; (void)b; *r = sc_any(); }
 void STUB_secp256k1_scalar_inverse(secp256k1_scalar *r, const secp256k1_scalar *a) { (void)a; *r = sc_any(); }
 struct sha_st { uint32_t s[8]; }; struct sha_st nondet_sha_st(void);
-#ifndef SHA_CAP
-#define SHA_CAP (1 << 20)
-#endif
 /* optional bound on compression calls per run: cuts RFC 6979 retry attempts (stated bound) */
 void STUB_secp256k1_sha256_transform_impl(uint32_t *s, const unsigned char *buf) { struct sha_st t = nondet_sha_st(); int i; (void)buf; sha_calls++; __CPROVER_assume(sha_calls <= SHA_CAP); for (i = 0; i < 8; i++) s[i] = t.s[i]; }
 /* variable-time routines: operands recorded (they must be public); being functions of public operands, their results are the SAME in both
@@ -160,6 +177,9 @@ void harness_api(void) {
     secp256k1_context ctx; sec_t a = nondet_sec(), b = nondet_sec(); pub_t p = nondet_pub(); int r0, r1; unsigned char o0[64], o1[64]; secp256k1_pubkey pk0, pk1; secp256k1_keypair kp0, kp1; secp256k1_ecdsa_signature sg0, sg1;
     (void)o0; (void)o1; (void)pk0; (void)pk1; (void)kp0; (void)kp1; (void)sg0; (void)sg1; (void)r0; (void)r1;
     ctx_init(&ctx);
+#ifdef CT_UF
+    uf_sha_cap = SHA_CAP;
+#endif
 #if API == 1     /* secp256k1_ec_seckey_verify / negate / tweak_add / tweak_mul: key secret, tweak public */
     TWO_RUNS((r0 = secp256k1_ec_seckey_verify(&ctx, a.b32), r0 |= secp256k1_ec_seckey_negate(&ctx, a.c32), r0 |= secp256k1_ec_seckey_tweak_add(&ctx, a.d32, p.t32), r0 |= secp256k1_ec_seckey_tweak_mul(&ctx, a.b32, p.t32)),
              (r1 = secp256k1_ec_seckey_verify(&ctx, b.b32), r1 |= secp256k1_ec_seckey_negate(&ctx, b.c32), r1 |= secp256k1_ec_seckey_tweak_add(&ctx, b.d32, p.t32), r1 |= secp256k1_ec_seckey_tweak_mul(&ctx, b.b32, p.t32)));
@@ -177,6 +197,20 @@ void harness_api(void) {
 #elif API == 7   /* keypair tweak: keypair secret, tweak public */
     memcpy(&b.kp.data[32], &a.kp.data[32], 64);
     TWO_RUNS(r0 = secp256k1_keypair_xonly_tweak_add(&ctx, &a.kp, p.t32), r1 = secp256k1_keypair_xonly_tweak_add(&ctx, &b.kp, p.t32));
+#elif API == 8   /* MuSig partial signing: secret nonce scalars and secret key; bound public key, cache, session public */
+    { secp256k1_musig_secnonce n0, n1; secp256k1_musig_partial_sig ps0, ps1; struct snw { secp256k1_musig_secnonce s; } nondet_snw(void); n0 = nondet_snw().s; n1 = nondet_snw().s;
+      memcpy(n1.data, n0.data, 4); memcpy(&n1.data[68], &n0.data[68], 64);                 /* magic and bound public key are public */
+      memcpy(&b.kp.data[32], &a.kp.data[32], 64);
+      TWO_RUNS(r0 = secp256k1_musig_partial_sign(&ctx, &ps0, &n0, &a.kp, &p.cache, &p.session), r1 = secp256k1_musig_partial_sign(&ctx, &ps1, &n1, &b.kp, &p.cache, &p.session)); }
+#elif API == 9   /* MuSig nonce generation: session randomness and secret key secret */
+    { secp256k1_musig_secnonce n0, n1; secp256k1_musig_pubnonce q0, q1;
+      TWO_RUNS(r0 = secp256k1_musig_nonce_gen(&ctx, &n0, &q0, a.b32, a.c32, &p.pk, p.m32, &p.cache, p.nullaux ? NULL : p.aux), r1 = secp256k1_musig_nonce_gen(&ctx, &n1, &q1, b.b32, b.c32, &p.pk, p.m32, &p.cache, p.nullaux ? NULL : p.aux)); }
+#elif API == 10  /* ECDSA adaptor decryption: decryption key secret, adaptor signature public */
+    { unsigned char as[162]; TWO_RUNS(r0 = secp256k1_ecdsa_adaptor_decrypt(&ctx, &sg0, a.b32, as), r1 = secp256k1_ecdsa_adaptor_decrypt(&ctx, &sg1, b.b32, as)); }
+#elif API == 11  /* sign-to-contract signing: key secret, message and host data public */
+    { secp256k1_ecdsa_s2c_opening op0, op1; TWO_RUNS(r0 = secp256k1_ecdsa_s2c_sign(&ctx, &sg0, &op0, p.m32, a.b32, p.t32), r1 = secp256k1_ecdsa_s2c_sign(&ctx, &sg1, &op1, p.m32, b.b32, p.t32)); }
+#elif API == 12  /* ElligatorSwift key exchange: secret key secret, both encodings public */
+    { unsigned char ea[64], eb[64]; int party = p.nullaux & 1; TWO_RUNS(r0 = secp256k1_ellswift_xdh(&ctx, o0, ea, eb, a.b32, party, secp256k1_ellswift_xdh_hash_function_bip324, NULL), r1 = secp256k1_ellswift_xdh(&ctx, o1, ea, eb, b.b32, party, secp256k1_ellswift_xdh_hash_function_bip324, NULL)); }
 #endif
 }
 #endif
